@@ -54,9 +54,9 @@ func (m *Mutex) TryLock() bool {
 
 func (m *Mutex) Count() int {
 	// 获取state字段的值
-	v := atomic.LoadInt32((*int32)(unsafe.Pointer(&m.Mutex)))
-	v = v >> mutexWaiterShift //得到等待者的数值
-	v = v + (v & mutexLocked) //再加上锁持有者的数量，0或者1
+	state := atomic.LoadInt32((*int32)(unsafe.Pointer(&m.Mutex)))
+	v := state >> mutexWaiterShift //得到等待者的数值
+	v = v + (state & mutexLocked)  //再加上锁持有者的数量，0或者1
 	return int(v)
 }
 
